@@ -214,14 +214,19 @@ def check_case(case, opts):
             if len(cuts) > 60:
                 step = len(cuts) / 60.0
                 cuts = sorted(set(cuts[int(i * step)] for i in range(60)))
-            for c in cuts:
-                ctx2 = dict(ctx, stdin=data[:c])
+            # a member that tar2sqfs skips (--exclude-dir, --root-becomes with another prefix) still has to be there completely
+            in_data = lambda c: any(hdr + 512 <= c < dend for _, _, hdr, dend in members or [])
+            runs = [(c, []) for c in cuts] + [(c, x) for i, c in enumerate(cuts) if in_data(c) for x in ([["-E", "*"]] if i % 2 else [["-r", "no-such-prefix-zz"]])]
+            for c, extra in runs:
+                ctx2 = dict(ctx, stdin=data[:c], t2s_extra=extra)
                 n[0] += 1
                 d = os.path.join(sc, "r%d" % n[0])
                 os.mkdir(d)
                 o = scenarios.run(ctx2, d, variant="asan", timeout=40)
                 vcommon.shutil.rmtree(d, ignore_errors=True)
-                what = "input that ends inside a member (%d of %d bytes)" % (c, len(data))
+                what = "input that ends inside a member (%d of %d bytes)%s" % (c, len(data), (" which is skipped because of " + " ".join(extra)) if extra else "")
+                if extra:
+                    classes.append("truncated_inside_skipped_member")
                 if o.timeout:
                     raise Violation("t2s hangs on %s" % what, None, sig="hang")
                 if o.san:
